@@ -216,15 +216,16 @@ func (w *worker) panicked(i int, res string) {
 	w.finish()
 }
 
-// vet ends the child if, in the concurrent phase, an op panicked although the sequential run of the same op did not.
-func (w *worker) vet(i int, r string, conc bool, ref []string, k int) {
+// vet ends the child at once when an op of the concurrent phase panicked out of a sync primitive (such a panic
+// leaves the goroutine's race-detector state unusable) or, with strict, panicked at all. Other panics are kept as
+// the op's result and compared with the sequential run like any other result.
+func (w *worker) vet(i int, r string, conc bool, strict bool) {
 	if !conc || !isPanic(r) {
 		return
 	}
-	if ref != nil && k < len(ref) && ref[k] == r {
-		return
+	if strict || strings.HasPrefix(r, "panic: sync:") || strings.Contains(r, "concurrent map") {
+		w.panicked(i, r)
 	}
-	w.panicked(i, r)
 }
 
 // raceLogSize returns the current size of this process's race log (GORACE log_path), or -1.
